@@ -207,7 +207,11 @@ func urlPrefixClass(sc sanitizationContext, prefix string) string {
 		return "Query"
 	}
 	if urlPrefixStaysInvalid(sc, prefix) {
-		return "UnsafePrefix"
+		if strings.ContainsAny(html.UnescapeString(prefix), "/?#") {
+			return "UnsafePrefix"
+		}
+		// Static text of the called template is still vetted for completing a scheme.
+		return "UnsafeSchemePrefix"
 	}
 	// Text of the called template could complete the scheme, the origin, a character
 	// reference or a percent-encoding triplet: the prefix itself matters.
